@@ -5,8 +5,8 @@ use educe::Educe;
 use core::cmp::Ordering;
 #[derive(Educe)]
 #[educe(Hash)]
-pub struct T { x: A<0> }
-pub fn values() -> Vec<T> { vec![T { x: A(0) }, T { x: A(1) }, T { x: A(7) }] }
-pub fn show(x: &T) -> String { #[allow(unused_variables)] match x { T { x: p0 } => format!("T({})", sv(p0)) } }
-pub fn o_hash(x: &T) -> Vec<String> { let mut e = Rec::default(); match x { T { x: p0 } => { ::core::hash::Hash::hash(p0, &mut e); } } e.0 }
+pub enum T { Unit, Some(#[educe(Hash(ignore(true)))] A<0>, #[educe(Hash(method = m_hash))] A<1>, A<2>, #[educe(Hash(ignore))] A<0>) }
+pub fn values() -> Vec<T> { vec![T::Unit, T::Some(A(7), A(7), A(1), A(1)), T::Some(A(1), A(0), A(0), A(0)), T::Some(A(1), A(7), A(7), A(7)), T::Some(A(7), A(7), A(0), A(0)), T::Some(A(1), A(0), A(1), A(0)), T::Some(A(1), A(0), A(1), A(7)), T::Some(A(1), A(7), A(0), A(0)), T::Some(A(0), A(7), A(0), A(7)), T::Some(A(7), A(0), A(0), A(1)), T::Some(A(0), A(1), A(7), A(1)), T::Some(A(1), A(1), A(0), A(1)), T::Some(A(7), A(0), A(1), A(0)), T::Some(A(0), A(0), A(7), A(7)), T::Some(A(0), A(0), A(1), A(1)), T::Some(A(1), A(1), A(1), A(7)), T::Some(A(7), A(1), A(1), A(1)), T::Some(A(7), A(7), A(7), A(7)), T::Some(A(1), A(0), A(1), A(1)), T::Some(A(0), A(1), A(0), A(7)), T::Some(A(7), A(0), A(7), A(1)), T::Some(A(7), A(1), A(0), A(0)), T::Some(A(1), A(1), A(0), A(7)), T::Some(A(7), A(1), A(0), A(1)), T::Some(A(0), A(0), A(7), A(0))] }
+pub fn show(x: &T) -> String { #[allow(unused_variables)] match x { T::Unit => format!("Unit()"), T::Some(p0, p1, p2, p3) => format!("Some({},{},{},{})", sv(p0), sv(p1), sv(p2), sv(p3)) } }
+pub fn o_hash(x: &T) -> Vec<String> { let mut e = Rec::default(); match x { T::Unit => { ::core::hash::Hash::hash(&0usize, &mut e); }, T::Some(p0, p1, p2, p3) => { ::core::hash::Hash::hash(&1usize, &mut e); m_hash(p1, &mut e); ::core::hash::Hash::hash(p2, &mut e); } } e.0 }
 pub fn run(out: &mut Out) { let vs = values(); for a in &vs { let mut g = Rec::default(); ::core::hash::Hash::hash(a, &mut g); let e = o_hash(a); out.check(g.0 == e, "hash_14", "hash", || format!("hash({}) fed {:?} expected {:?}", show(a), g.0, e)); } }
